@@ -210,7 +210,7 @@ struct Acc {
   double max_ulps = 0, max_cond = 0, max_delta_ulps = 0;
 };
 
-static const char* const kClassName[4] = {"wide", "moderate", "near-equal", "near-one"};
+static const char* const kClassName[5] = {"wide", "moderate", "near-equal", "near-one", "dominant-near-equal-diagonal"};
 
 // ------------------------------------------------------------------------------------------------
 // row-independent half (instantiated once per numeric type and translation unit)
@@ -219,12 +219,26 @@ static const char* const kClassName[4] = {"wide", "moderate", "near-equal", "nea
 template <typename T>
 static int draw(Rng& rng, std::vector<T>& x) {
   constexpr int E = std::is_same_v<T, float> ? 19 : 66;
-  const uint64_t pick = rng.below(10);
-  const int cls = pick < 4 ? 0 : pick < 6 ? 1 : pick < 8 ? 2 : 3;
+  const uint64_t pick = rng.below(12);
+  const int cls = pick < 4 ? 0 : pick < 6 ? 1 : pick < 8 ? 2 : pick < 10 ? 3 : (x.size() >= 6 ? 4 : 2);
   if (cls == 0) {
     for (auto& v : x) v = rng.logu<T>(-E, E);
   } else if (cls == 1) {
     for (auto& v : x) v = rng.logu<T>(-10, 10);
+  } else if (cls == 4) {
+    // tensor-valued inputs dominated by a nearly isotropic diagonal (a pressure-like state with small shear): the
+    // diagonal slots agree in their leading bits, every other slot is smaller by 2^-8 .. 2^-(p/2)
+    const T s = rng.logu<T>(-10, 10);
+    const size_t n = x.size();
+    for (size_t i = 0; i < n; ++i) {
+      const bool diag = (n == 6 || n == 7) ? (i == 0 || i == 3 || i == 5) : (i % 4 == 0 && i < 9);
+      if (diag) {
+        const T d = rng.logu<T>(-(Num<T>::p / 2), -3);
+        x[i] = s * (rng.coin() ? static_cast<T>(1) + d : static_cast<T>(1) - d);
+      } else {
+        x[i] = s * rng.logu<T>(-(Num<T>::p / 2), -8);
+      }
+    }
   } else {
     // x_i = s (1 +- d_i): values that agree in their leading 1..p-2 bits; s = 1 in the near-one class
     const T s = cls == 2 ? rng.logu<T>(-E + 1, E - 1) : static_cast<T>(1);
